@@ -288,7 +288,7 @@ func (cs *checkState) writeEvidence(exhaustive bool) {
 		hparts = append(hparts, fmt.Sprintf("%s{%s}", h.Name, strings.Join(shp, " ")))
 	}
 	expl := fmt.Sprintf("Bounded symbolic execution (gosym: own Go-SSA symbolic executor; z3 5.1 (z3-new) on a pipe, cvc5 for floating point, cvc5/z3 4.8.12 fall-back) of the real functions of /repo's current working tree, loaded and translated on this run. "+
-		"Every path of each harness shape was explored; on every path each assertion's negation was decided by the solver (unsat = holds for all input values of that shape). "+
+		"Every path of each harness shape was explored; on every path each assertion's negation was decided for all input values of that shape: by the SMT solver, or - when the assertion depends on a single variable of at most 8 bits, or on none - by exact evaluation over that variable's remaining domain (the queries counted below are the solver calls; schedule and pool choices are enumerated exhaustively by the executor). "+
 		"Harnesses and shapes (= the bound): %s. Outside the bound: larger sizes than the listed shapes; see DESIGN.md section 4 for the property's stated cuts. "+
 		"Loops are executed, not summarised: unwinding is complete for every shape or the run fails (exit 2).", strings.Join(hparts, "; "))
 	if len(cs.errors) > 0 {
